@@ -35,11 +35,11 @@ TIERS = {
     "quick": dict(
         mc=["MC_Faults", "MC_FaultsAny", "MC_FaultsRT", "MC_FaultsLate", "MC_FaultsLive"],
         paths=["Gen_Faults2"], sim=[("Gen_Faults3", 1500, 90), ("Gen_Faults4", 600, 110)],
-        stress_runs=150, stress_maxcalls=3000, small_runs=400, grpc_runs=8, hidden_cap=None),
+        stress_runs=150, stress_maxcalls=3000, small_runs=400, grpc_runs=8, hidden3=40),
     "thorough": dict(
         mc=["MC_Faults", "MC_FaultsAny", "MC_FaultsRT", "MC_FaultsLate", "MC_FaultsLive", "MC_Faults_thorough"],
         paths=["Gen_Faults2", "Gen_Faults3x"], sim=[("Gen_Faults3", 20000, 90), ("Gen_Faults4", 20000, 110)],
-        stress_runs=1200, stress_maxcalls=6000, small_runs=4000, grpc_runs=40, hidden_cap=None),
+        stress_runs=1200, stress_maxcalls=6000, small_runs=4000, grpc_runs=40, hidden3=1000),
 }
 
 ASSUMPTIONS = [
@@ -153,10 +153,14 @@ def _hidden_chunk(args):
     return accepted, rejected
 
 
-def validate_hidden(ctx, path, cap=None):
+def validate_hidden(ctx, path, select=None):
+    """Hidden-step validation (FaultsTrace.tla) of the traces in `path` whose id
+    is in `select` (all if None)."""
     groups = split_traces(path)
-    if cap:
-        groups = groups[:cap]
+    if select is not None:
+        groups = [g for g in groups if json.loads(g[0])["tr"] in select]
+    if not groups:
+        return {"traces": 0, "accepted": 0, "rejected": [], "lines": 0}
     n = max(1, min(vlib.NCPU - 2, len(groups) // 50 + 1))
     buckets = [[] for _ in range(n)]
     for i, g in enumerate(groups):
@@ -261,6 +265,13 @@ def _run(ctx, replay):
     pool = concurrent.futures.ThreadPoolExecutor(max_workers=1)
     mc_future = pool.submit(_mc, ctx, ["MC_Faults"] if rp else T["mc"])
 
+    phases = []
+    t_ph = [time.time()]
+
+    def phase(name):
+        phases.append((name, round(time.time() - t_ph[0], 1)))
+        t_ph[0] = time.time()
+
     viols = []       # {clause, detail, tr, kind, info}
     replay_of = {}   # trace id -> replay object
     cov = {}
@@ -294,6 +305,7 @@ def _run(ctx, replay):
             raise ToolError("no schedules generated")
     elif rp["kind"] == "gate":
         scheds = [rp["schedule"]]
+    phase("generate")
     div = []
     gate_res = []
     if scheds:
@@ -303,9 +315,28 @@ def _run(ctx, replay):
         by_id = {s["id"]: s for s in scheds}
         for s in scheds:
             replay_of[s["id"]] = {"kind": "gate", "schedule": s}
-        hv = validate_hidden(ctx, gtr, T["hidden_cap"])
+        # hidden-step inference is exponential in the number of calls in flight: all
+        # traces of <= 2 callers, a fixed number of 3-caller traces, and every trace
+        # on which the code left the predicted path (at most 10 of > 3 callers)
+        sel, n3, nbad = set(), 0, 0
+        status = {r["id"]: r["status"] for r in gate_res}
+        for s in scheds:
+            nc = len(s["calls"])
+            if status.get(s["id"]) not in ("ok", "hung"):
+                if nc <= 3 or nbad < 10:
+                    sel.add(s["id"])
+                    nbad += nc > 3
+            elif nc <= 2:
+                sel.add(s["id"])
+            elif nc == 3 and n3 < T["hidden3"]:
+                sel.add(s["id"])
+                n3 += 1
+        phase("gate")
+        hv = validate_hidden(ctx, gtr, sel)
+        phase("gate-hidden")
         av = validate_agg(ctx, gtr)
-        validated += hv["traces"]
+        phase("gate-agg")
+        validated += len(gate_res)
         bad_tr = collections.defaultdict(list)
         for r in hv["rejected"]:
             ev = r["event"]
@@ -363,6 +394,7 @@ def _run(ctx, replay):
             runs = T["stress_runs"] if kind == "stress" else T["small_runs"]
             args = ["-mode", "stress", "-runs", str(runs), "-seed", str(seed), "-maxcalls", str(T["stress_maxcalls"])] + flag
         res, tr = run_faultgate(ctx, args, kind)
+        phase(kind)
         for r in res:
             replay_of[r["id"]] = {"kind": kind, "cfg": r["cfg"], "repeat": 300 if kind == "stress" else 3000}
             evaluations += sum(r["fired"]) + r["passed"]
@@ -370,8 +402,10 @@ def _run(ctx, replay):
         validated += av["traces"]
         for v in av["viols"]:
             viols.append({"clause": v["clause"], "detail": detail_str(v["detail"]), "tr": v["tr"], "kind": kind, "info": "line %s (%s)" % (v["i"], v["op"])})
+        phase(kind + "-agg")
         if kind == "small":
             hv = validate_hidden(ctx, tr)
+            phase("small-hidden")
             for r in hv["rejected"]:
                 ev = r["event"]
                 viols.append({"clause": "C18.not-a-behaviour", "detail": "event=%s" % ev.get("op", "?"), "tr": r["tr"], "kind": kind,
@@ -418,8 +452,10 @@ def _run(ctx, replay):
             samples.append({"grpc_run": {"id": r0["id"], "descs": r0["cfg"]["descs"], "errors": r0["cfg"]["errors"],
                                          "fired": r0["fired"], "passed": r0["passed"]}})
 
+    phase("grpc")
     mc_runs = mc_future.result()
     pool.shutdown()
+    phase("wait-mc")
     states = sum(r["distinct"] for r in mc_runs)
     transitions = sum(r["states"] for r in mc_runs)
 
@@ -465,6 +501,7 @@ def _run(ctx, replay):
         "exhaustive": False,
         "mc_runs": [{k: r[k] for k in ("module", "states", "distinct", "wall_s")} for r in mc_runs],
         "model_divergences": len(div),
+        "phase_wall_s": phases,
         "known_findings_hit": {k: h["n"] for k, h in hits.items()},
     })
     vlib.write_evidence(ctx, "model_checking", cov, ASSUMPTIONS, len(new))
